@@ -389,6 +389,12 @@ package s3mem
 //@ ensures           inv:    boiInv(b)
 //@ ensures [C13]     cur:    imp(ret0, b.cur != nil && allocated(b.cur))
 //@ ensures [C13]     last:   imp(ret0 && old(b.iter) == nil, b.cur == old(b.data) && b.data == nil)
+// archived versions come first, in index order; the current version is only handed out once they are exhausted
+//@ ensures [C13]     arch:   imp(!old(b.done) && old(b.iter) != nil && old(it_idx(b.iter)) + 1 < sl_len(it_list(old(b.iter))) && old(it_idx(b.iter)) + 1 >= 0,
+//@                             ret0 && b.iter == old(b.iter) && it_idx(b.iter) == old(it_idx(b.iter)) + 1 && b.data == old(b.data) &&
+//@                             b.cur == dyn(sl_val(it_list(b.iter))[sl_key(it_list(b.iter))[it_idx(b.iter)]], *bucketData))
+//@ ensures [C13]     then:   imp(!old(b.done) && old(b.iter) != nil && old(it_idx(b.iter)) + 1 >= sl_len(it_list(old(b.iter))) && old(b.data) != nil,
+//@                             ret0 && b.cur == old(b.data) && b.data == nil && b.iter == nil)
 //@ ensures [C13]     end:    imp(!ret0, b.done)
 //@ modifies b.iter, b.data, b.done, b.cur, it_idx(b.iter)
 
